@@ -469,6 +469,52 @@ m("C09", "unprotect-wrong-peer", FSM,
   "	if otherParty != env.ID() {\n		otherParty = channel.Responder\n	}",
   "C09.2", "un-protects itself instead of the counterparty")
 
+# ---------------- C10
+m("C10", "pending-not-cleared", GS,
+  "		extensions := c.pendingExtensions\n		c.pendingExtensions = nil\n		for _, ext := range extensions {",
+  "		for _, ext := range c.pendingExtensions {",
+  "C10.5", "queued message re-delivered on every later request", "seeded/C10a")
+m("C10", "push-restart-last-voucher", RS,
+  "func (m *manager) openPushRestartChannel(ctx context.Context, channel datatransfer.ChannelState) error {\n	selector := channel.Selector()\n	voucher := channel.Voucher()",
+  "func (m *manager) openPushRestartChannel(ctx context.Context, channel datatransfer.ChannelState) error {\n	selector := channel.Selector()\n	voucher := channel.LastVoucher()",
+  "C10.1", "push restart carries the latest voucher instead of the original", "seeded/C10b")
+m("C10", "restart-as-new", RS,
+  "	req, err := message.NewRequest(chid.ID, true, true, &voucher, baseCid, selector)",
+  "	req, err := message.NewRequest(chid.ID, false, true, &voucher, baseCid, selector)",
+  "C10.1", "pull restart re-issued as a new request")
+m("C10", "restart-wrong-direction", RS,
+  "	req, err := message.NewRequest(chid.ID, true, false, &voucher, baseCid, selector)",
+  "	req, err := message.NewRequest(chid.ID, true, channel.IsPull() || true, &voucher, baseCid, selector)",
+  "C10.1", "push restart re-issued as a pull")
+m("C10", "skip-queued-instead-of-received", GS,
+  "	skipBlockCount := channel.ReceivedCidsTotal()",
+  "	skipBlockCount := channel.QueuedCidsTotal()",
+  "C10.3", "sender told to skip the wrong number of blocks")
+m("C10", "pull-restart-without-channel", RS,
+  "	if err := m.transport.OpenChannel(ctx, requestTo, chid, cidlink.Link{Cid: baseCid}, selector, channel, req); err != nil {",
+  "	if err := m.transport.OpenChannel(ctx, requestTo, chid, cidlink.Link{Cid: baseCid}, selector, nil, req); err != nil {",
+  "C10.1", "restarted pull re-requests every block")
+m("C10", "reopen-without-cancel", GS,
+  "	if c.requestID != nil {\n		// Cancel the existing graphsync request\n		completed := c.completed",
+  "	if c.requestID != nil && c.requesterCancelled {\n		// Cancel the existing graphsync request\n		completed := c.completed",
+  "C10.4", "previous graphsync request left running when the channel is re-opened")
+m("C10", "restart-without-revalidation", RS,
+  "func (m *manager) restartManagerPeerReceivePush(ctx context.Context, channel datatransfer.ChannelState) error {\n	result, err := m.validateRestart(channel)\n	if err != nil {\n		return fmt.Errorf(\"failed to restart channel, validation error: %w\", err)\n	}\n\n	if !result.Accepted {\n		return datatransfer.ErrRejected\n	}",
+  "func (m *manager) restartManagerPeerReceivePush(ctx context.Context, channel datatransfer.ChannelState) error {\n	result, err := m.validateRestart(channel)\n	if err != nil {\n		return fmt.Errorf(\"failed to restart channel, validation error: %w\", err)\n	}\n\n	if !result.Accepted {\n		log.Warn(datatransfer.ErrRejected)\n	}",
+  "C10.6", "responder asks for a restart although its validator rejects it")
+m("C10", "queue-while-present", GS,
+  "	if c.requesterCancelled {\n		// If there was an associated message, we still want to send it to the",
+  "	if c.requesterCancelled || msg != nil {\n		// If there was an associated message, we still want to send it to the",
+  "C10.5", "resume message queued although the requester is present")
+m("C10", "restart-creates-channel", RR,
+  "	// record the restart events\n	if err := m.channels.Restart(chid); err != nil {",
+  "	// record the restart events\n	if _, cerr := m.channels.CreateNew(m.peerID, chid.ID, incoming.BaseCid(), nil, datatransfer.TypedVoucher{}, initiator, initiator, m.peerID); cerr == nil {\n		_ = m.channels.Open(chid)\n	}\n	if err := m.channels.Restart(chid); err != nil {",
+  "C10.2", "a restart request can create a channel")
+m("C10", "role-dispatch-swapped", IMPL,
+  "	case ManagerPeerCreatePull:\n		return m.openPullRestartChannel(ctx, channel)\n	case ManagerPeerCreatePush:\n		return m.openPushRestartChannel(ctx, channel)",
+  "	case ManagerPeerCreatePull:\n		return m.openPushRestartChannel(ctx, channel)\n	case ManagerPeerCreatePush:\n		return m.openPullRestartChannel(ctx, channel)",
+  "C10.1", "created-pull channel restarted as a push")
+
 by = collections.defaultdict(list)
 for x in M:
     p = x.pop("prop")
